@@ -614,6 +614,20 @@ class SymSeq:
     def strip(self, chars=None):
         return self._strip(chars, True, True)
 
+    def zfill(self, width):
+        """bytes.zfill: left-fill with ASCII '0' (0x30), after a leading sign octet"""
+        items = list(self.items())
+        if not isinstance(width, int):
+            width = _eng().concretize(width)
+        pad = width - len(items)
+        if pad <= 0:
+            return self
+        if items and _t(any_of_syms([items[0] == 0x2B, items[0] == 0x2D])):
+            out = [items[0]] + [0x30] * pad + items[1:]
+        else:
+            out = [0x30] * pad + items
+        return SymBytes(out).norm() if isinstance(self, SymBytes) else type(self)(out)
+
     def removeprefix(self, prefix):
         n = len(prefix)
         if n and _t(self.startswith(prefix)):
